@@ -4,3 +4,8 @@ import RactorModel.Props.C18
 import RactorModel.Props.C01
 import RactorModel.Props.C03
 import RactorModel.Props.C04
+import RactorModel.Props.C10
+import RactorModel.Props.C09
+import RactorModel.Props.C08
+import RactorModel.Props.C16
+import RactorModel.Props.C20
